@@ -4,23 +4,23 @@ CONSTANTS
   KeyRegime = "drkey"
   CheckSrcHost = TRUE
   MaxDatagrams = 2
-  CIAs <- CIAs2
-  CHosts <- CHosts2
-  EpochLen = 1
-  MaxClock = 1
-  Grace = 0
+  CIAs <- CIAsE
+  CHosts <- CHostsE
+  EpochLen = 3
+  MaxClock = 5
+  Grace = 1
   KeepPathType = FALSE
   Modes <- ModesK
   ULs <- ULsK
   L4s <- L4sK
   DPorts <- DPortsK
-  DHosts <- DHostsAll
+  DHosts <- DHostsE
   Fams <- Fams4
   PathSet <- PathsK
   PathExts <- PathExtsK
   RespExts <- RespExts1
   Pls <- PlsK
-  ReqAuths <- ReqAuthsK
+  ReqAuths <- ReqAuthsE
   RespMuts <- RespMutsK
-INVARIANTS TypeOK MacSound AuthReplyVerifies ReplyAddressing ForwardRule AtMostOne EmitSeq
+INVARIANTS MacSound AuthReplyVerifies
 CONSTRAINT KeysOnly
